@@ -511,4 +511,4 @@ class Interp:
             pass
 
 
-SUBS = [HistorySub("history", config(), RULES, Interp, quick=96, thorough=2000, steps=(12, 30))]
+SUBS = [HistorySub("history", config(), RULES, Interp, quick=96, thorough=1000, steps=(12, 30))]
